@@ -349,13 +349,15 @@ func merge(plan Plan, rs []*vrt.Result) *Merged {
 	m.TraceHashes = nil
 	hashes := map[uint64]struct{}{}
 	found := map[string]*vrt.Finding{}
-	m.Executions, m.Schedules, m.SleepBlocked, m.Contended = 0, 0, 0, 0
+	m.Executions, m.Schedules, m.SleepBlocked, m.Contended, m.Projections = 0, 0, 0, 0, 0
 	m.PerBound = nil
 	m.Exhaustive = true
 	m.BoundCompleted = 1 << 30
 	approx := false
 	for _, r := range rs {
 		m.Executions += r.Executions
+		m.Projections += r.Projections
+		m.Opaque = append(m.Opaque, r.Opaque...)
 		m.Schedules += r.Schedules
 		m.SleepBlocked += r.SleepBlocked
 		m.Contended += r.Contended
@@ -567,6 +569,24 @@ func (b *Built) Feed(c *core.Ctx, o Options, ms []*Merged) {
 	var groupOrder []string
 	var rows []row
 	var total int64
+	opaque := map[string]bool{}
+	for _, m := range ms {
+		for _, t := range m.Opaque {
+			opaque[t] = true
+		}
+	}
+	if len(opaque) > 0 {
+		var ts []string
+		for t := range opaque {
+			ts = append(ts, t)
+		}
+		sort.Strings(ts)
+		k := "opaque_object_types_met"
+		if o.Prefix != "" {
+			k += "_" + strings.Trim(o.Prefix, ":/ ")
+		}
+		c.Note(k, ts)
+	}
 	// cross-check: a finding of the preemption-bounded search must also be a finding of the
 	// complete search of the same scenario (the complete search covers every schedule)
 	complete := map[string]*Merged{}
@@ -606,7 +626,17 @@ func (b *Built) Feed(c *core.Ctx, o Options, ms []*Merged) {
 		if len(m.TraceHashes) == 0 {
 			c.State(name, nontrivial)
 		}
-		c.Exec(m.Executions)
+		c.Exec(m.Executions + m.Projections)
+		if m.Projections > 0 {
+			c.AddNote("projection_replays", m.Projections)
+		}
+		for k, n := range m.Outcomes {
+			if strings.Contains(k, "BLOCKED(") {
+				// an Env scenario in which a thread never returned -- and, no finding being
+				// reported, did not return alone with the environment in the same order either
+				c.AddNote("executions_with_a_thread_blocked_also_alone", n)
+			}
+		}
 		total += m.Schedules
 		for k, n := range m.Outcomes {
 			for i := int64(0); i < n && i < 1; i++ {
